@@ -218,7 +218,14 @@ class CQN(RLAlgorithm):
         :return: Loss from learning
         :rtype: float
         """
-        states, actions, rewards, next_states, dones = experiences
+        if hasattr(experiences, "keys"):
+            # TensorDict (or dict) batch as returned by ``ReplayBuffer.sample()``
+            states, actions, rewards, next_states, dones = (
+                experiences[key]
+                for key in ("obs", "action", "reward", "next_obs", "done")
+            )
+        else:
+            states, actions, rewards, next_states, dones = experiences
         if self.accelerator is not None:
             actions = actions.to(self.accelerator.device)
             rewards = rewards.to(self.accelerator.device)
